@@ -1,10 +1,11 @@
 SPECIFICATION Spec
-CONSTANTS MaxLen = 4 CopyOnCompute = "each"
+CONSTANTS MaxLen = 4 Classes <- QuickClasses CopyOnCompute = "each"
 INVARIANT Fresh
 INVARIANT NotTheStored
 INVARIANT ResultsStable
 INVARIANT SourceIntact
 INVARIANT YieldsLast
+INVARIANT ConfigIntact
 PROPERTY MutateIsLocal
 INVARIANT Emitted
 CHECK_DEADLOCK FALSE
